@@ -402,6 +402,24 @@ pub fn run(prop: &'static str, tier: &str) -> i32 {
       evals += c[0];
     }
   }
+  // ---- stage (h): the outcome as the emulator's own dispatcher sees it.  The comparisons above
+  // read the status code "modulo Core::run_code_block's interpretation" with a table written
+  // here; this stage asks the real Core::run_code_block instead: in the jit build the same
+  // bytes are run from ROM (translated) and from work RAM (interpreted) from the same state,
+  // with every master-enable state and with requests pending, and everything Core makes of
+  // the block (master enable, run state, dispatch, stack, IF, device time) must agree.
+  if prop == "C01" {
+    if let Some(r) = dispatcher_stage(&mut rep) {
+      let total = r.cases_total;
+      let c = rep.add_stage(
+        "through-the-dispatcher",
+        "jit build (separate process): {EI, DI, RETI, RET, HALT, STOP, NOP;JP, CALL, RST} behind 0..2 NOPs x master enable {off, on, enable-next} x (IF, IE) in {none, VBlank, timer, all, masked} : Core::run_code_block on the block in ROM (translated) and on the same bytes in work RAM (interpreted); master enable, run state, PC (relative to the block), SP, registers, IF, stack bytes, block cycle length and device time compared",
+        r,
+      );
+      programs += total;
+      evals += c[0];
+    }
+  }
   rep.evaluations = evals;
   rep.cov("programs", J::u(programs));
   rep.cov("disagreements_checked", J::u(rep.violations.iter().map(|v| v.count).sum()));
@@ -468,6 +486,10 @@ fn shipping_cases() -> Vec<Vec<u8>> {
 
 /// worker entry (runs in the hooks-off build): `gbmc C01 --worker shipping <tier> <out.json>`
 pub fn worker(prop: &'static str, args: &[String]) -> i32 {
+  #[cfg(gb_dynarec_verif)]
+  if !args.is_empty() && args[0] == "dispatcher" {
+    return dispatcher_worker(args);
+  }
   if args.len() < 3 || args[0] != "shipping" {
     eprintln!("{} worker: bad arguments {:?}", prop, args);
     return 2;
@@ -602,6 +624,203 @@ fn shipping_stage(prop: &str, tier: &str, rep: &mut Report) -> Option<crate::uti
   }
   if r.cases_total == 0 {
     rep.machinery_error("shipping-build worker reported no cases".to_string());
+    return None;
+  }
+  Some(r)
+}
+
+// ---------------------------------------------------------------------------------------------
+// stage (h): through Core::run_code_block, ROM (translated) vs work RAM (interpreted)
+
+const DISP_OPS: [(&str, &[u8]); 10] = [
+  ("EI", &[0xFB]),
+  ("DI", &[0xF3]),
+  ("RETI", &[0xD9]),
+  ("RET", &[0xC9]),
+  ("HALT", &[0x76]),
+  ("STOP", &[0x10, 0x00]),
+  ("NOP;JP", &[0x00, 0xC3, 0x00, 0x02]),
+  ("CALL", &[0xCD, 0x00, 0x02]),
+  ("RST 28", &[0xEF]),
+  ("EI;RETI", &[0xFB, 0xD9]),
+];
+const DISP_IRQ: [(u8, u8); 5] = [(0x00, 0x00), (0x01, 0x01), (0x04, 0x04), (0x1F, 0x1F), (0x03, 0x04)];
+
+#[derive(PartialEq, Debug, Clone)]
+struct DispObs {
+  ime: u8,
+  run: u8,
+  pc: String,
+  sp: u16,
+  af: u16,
+  bc: u16,
+  de: u16,
+  hl: u16,
+  iflag: u8,
+  ie: u8,
+  stack: Vec<String>,
+  block_cycles: usize,
+  left_cycles: u32,
+  div_clocks: u32,
+}
+
+#[cfg(gb_dynarec_verif)]
+fn dispatcher_case(core: &mut crate::emulator::Core, case: u64, ctx: &mut Ctx) {
+  use crate::cpustep::{peek_raw, poke_raw};
+  use crate::emulator::{InterruptState, RunState};
+  let oi = (case % DISP_OPS.len() as u64) as usize;
+  let nops = ((case / DISP_OPS.len() as u64) % 3) as usize;
+  let ime = ((case / DISP_OPS.len() as u64 / 3) % 3) as u8;
+  let (iflag, ie) = DISP_IRQ[(case / DISP_OPS.len() as u64 / 9) as usize];
+  let (name, op) = DISP_OPS[oi];
+  let mut code = vec![0u8; nops];
+  code.extend_from_slice(op);
+  code.extend_from_slice(&[0x76]); // whatever the block does not end on runs into a HALT
+  let rel = |v: u16, base: u16| -> String {
+    if v >= base && v < base + 16 { format!("block+{}", v - base) } else { format!("{:04X}", v) }
+  };
+  let mut obs: Vec<DispObs> = Vec::new();
+  // the ROM bytes at 0x0150 change from case to case (a harness artefact: real ROM does not),
+  // so the translations made for the previous case must go
+  crate::progrun::drop_cache(core);
+  for base in [0x0150u16, 0xC800].iter() {
+    core.memory.io = crate::devices::io::IO::new();
+    core.memory.oam_dma = None;
+    for (i, b) in code.iter().enumerate() {
+      poke_raw(&mut core.memory, base + i as u16, *b);
+    }
+    // a return address on the stack for RET / RETI, and a marker below it
+    for (a, v) in [(0xDFF0u16, 0x34u8), (0xDFF1, 0x12), (0xDFEE, 0xAA), (0xDFEF, 0xBB), (0xDFEC, 0xCC), (0xDFED, 0xDD)].iter() {
+      poke_raw(&mut core.memory, *a, *v);
+    }
+    core.registers.af = 0x1230;
+    core.registers.bc = 0x4567;
+    core.registers.de = 0x89AB;
+    core.registers.hl = 0xC0DE;
+    core.registers.sp = 0xDFF0;
+    core.registers.ip = *base as u32;
+    core.registers.cycles = 0;
+    core.run_state = RunState::Run;
+    core.interrupts_enabled = match ime {
+      0 => InterruptState::Disabled,
+      1 => InterruptState::Enabled,
+      _ => InterruptState::EnableNext,
+    };
+    let m = &mut core.memory as *mut crate::mem::MemoryAreas;
+    crate::mem::memory_write_byte(m, 0xFFFF, ie);
+    crate::mem::memory_write_byte(m, 0xFF0F, iflag);
+    let t0 = core.memory.io.timer.verif_cycle_count();
+    core.run_code_block();
+    let t1 = core.memory.io.timer.verif_cycle_count();
+    let sp = { core.registers.sp } as u16;
+    let mut stack = Vec::new();
+    for k in 0..3u16 {
+      let a = 0xDFECu16 + 2 * k;
+      let w = peek_raw(&core.memory, a) as u16 | ((peek_raw(&core.memory, a + 1) as u16) << 8);
+      stack.push(rel(w, *base));
+    }
+    obs.push(DispObs {
+      ime: crate::world::ime_code(&core.interrupts_enabled),
+      run: crate::world::run_code(&core.run_state),
+      pc: rel({ core.registers.ip } as u16, *base),
+      sp,
+      af: { core.registers.af } as u16,
+      bc: { core.registers.bc } as u16,
+      de: { core.registers.de } as u16,
+      hl: { core.registers.hl } as u16,
+      iflag: crate::mem::memory_read_byte(m as *const crate::mem::MemoryAreas, 0xFF0F) & 0x1F,
+      ie: crate::mem::memory_read_byte(m as *const crate::mem::MemoryAreas, 0xFFFF),
+      stack,
+      block_cycles: core.last_block_cycle_length,
+      left_cycles: { core.registers.cycles },
+      div_clocks: t1.wrapping_sub(t0) & 0xFFFF,
+    });
+  }
+  ctx.count(0, 2);
+  ctx.class(((oi as u64) << 8) | ((obs[1].ime as u64) << 6) | ((obs[1].run as u64) << 4) | ((obs[1].left_cycles == 5) as u64) << 3 | ime as u64);
+  ctx.sample(|| J::obj().set("block", J::s(format!("{} NOP; {}", nops, name))).set("master_enable_before", J::u(ime as u64)).set("if", J::u(iflag as u64)).set("ie", J::u(ie as u64)));
+  if obs[0] != obs[1] {
+    let a = format!("{:?}", obs[0]);
+    let b = format!("{:?}", obs[1]);
+    let field = if obs[0].ime != obs[1].ime { "interrupt-enable" } else if obs[0].run != obs[1].run { "run-state" } else if obs[0].pc != obs[1].pc { "pc" } else if obs[0].sp != obs[1].sp { "sp" } else if obs[0].block_cycles != obs[1].block_cycles || obs[0].div_clocks != obs[1].div_clocks { "time" } else { "state" };
+    ctx.violation(&format!("C01 dispatcher op={} field={}", name.replace(' ', ""), field), || {
+      J::obj()
+        .set("case", J::obj().set("block", J::s(hex(&code))).set("nops_before", J::u(nops as u64)).set("master_enable_before", J::s(["disabled", "enabled", "enable-next"][ime as usize])).set("if", J::u(iflag as u64)).set("ie", J::u(ie as u64)).set("how", J::s("Core::run_code_block on the block at 0x0150 (translated) and at 0xC800 (interpreted), same registers, SP=DFF0 with 0x1234 on the stack")))
+        .set("translated", J::s(a.as_str()))
+        .set("interpreted", J::s(b.as_str()))
+    });
+  }
+}
+
+/// worker entry (jit build): `gbmc C01 --worker dispatcher <out.json>`
+#[cfg(gb_dynarec_verif)]
+pub fn dispatcher_worker(args: &[String]) -> i32 {
+  if args.len() < 2 {
+    return 2;
+  }
+  if !cfg!(feature = "jit") {
+    eprintln!("C01 dispatcher worker must run in the jit build");
+    return 2;
+  }
+  let total = (DISP_OPS.len() * 3 * 3 * DISP_IRQ.len()) as u64;
+  let opts = PoolOpts { chunk: 8, bitmap_bits: 1 << 12, samples_per_child: 1, workers: 4, ..PoolOpts::default() };
+  let r = run_pool(
+    total,
+    &opts,
+    |_| {
+      let mut rom = vec![0u8; 0x8000];
+      rom[0x100..0x150].copy_from_slice(&crate::world::header_bytes(0x00, 0x00, 0x00)[0x100..0x150]);
+      rom[0x0200] = 0x76; // JP / CALL target: HALT
+      rom[0x0028] = 0x76; // RST 28 target
+      rom[0x1234] = 0x76; // RET / RETI target
+      for v in [0x40usize, 0x48, 0x50, 0x58, 0x60].iter() {
+        rom[*v] = 0x76;
+      }
+      crate::world::flat_core(rom)
+    },
+    |core, case, ctx| dispatcher_case(core, case, ctx),
+    |case, how| (format!("C01 dispatcher crash={}", how), J::obj().set("case", J::u(case))),
+  );
+  if std::fs::write(&args[1], r.to_json().to_string()).is_err() {
+    return 2;
+  }
+  0
+}
+
+fn dispatcher_stage(rep: &mut Report) -> Option<crate::util::pool::PoolResult> {
+  if std::env::var("GBMC_CHILD_OUT").is_ok() && std::env::var("GBMC_JIT_BIN").is_err() {
+    return None;
+  }
+  let bin = match std::env::var("GBMC_JIT_BIN") {
+    Ok(b) => b,
+    Err(_) => {
+      rep.machinery_error("GBMC_JIT_BIN not set (run through bin/check)".to_string());
+      return None;
+    },
+  };
+  let out = format!("{}/c01_dispatcher.json", crate::util::pool::tmp_dir());
+  match std::process::Command::new(&bin).args(&["C01", "--worker", "dispatcher", &out]).status() {
+    Ok(s) if s.success() => {},
+    Ok(s) => {
+      rep.machinery_error(format!("dispatcher worker failed: {:?}", s));
+      return None;
+    },
+    Err(e) => {
+      rep.machinery_error(format!("cannot start dispatcher worker {}: {}", bin, e));
+      return None;
+    },
+  }
+  let m = match crate::progrun::parse_json_file(&out) {
+    Ok(m) => m,
+    Err(e) => {
+      rep.machinery_error(format!("dispatcher worker result: {}", e));
+      return None;
+    },
+  };
+  let _ = std::fs::remove_file(&out);
+  let r = crate::util::pool::PoolResult::from_json(&m, "dispatcher worker");
+  if r.cases_total == 0 || r.cases_done != r.cases_total {
+    rep.machinery_error(format!("dispatcher worker covered {} of {} cases", r.cases_done, r.cases_total));
     return None;
   }
   Some(r)
